@@ -11,10 +11,10 @@ LEVEL = "exploration"
 FLAVORS = ["asan"]
 RULE = ("random trees and kill plugins with pre-existing trusted./user. oomd_ooms / oomd_kill xattr values, 0/1/19-21/45 pids and nested "
         "descendants, partial kill failures (ESRCH/EPERM per pid), lingering pids that stay listed and are re-signalled on the retry "
-        "rounds, trusted.* xattrs refused (EPERM/ENOTSUP), silence-logs settings, always_continue, dry, kernelkill, 3-5 ticks of repeated "
+        "rounds, trusted.* xattrs refused (EPERM/ENOTSUP), silence-logs settings, always_continue, dry, kernelkill, multi-poll prekill hooks, 3-8 ticks of repeated "
         "kills; per attempt: one uuid on both namespaces, ooms = old+1, kill = old + #kill(2) that returned 0; per invocation: exactly one "
         "`oomd kill` kmsg line naming victim/ruleset/group/plugin iff a process was signalled, oomd.kills total == number of such "
-        "invocations, next scripted action runs iff nothing was signalled or always_continue. "
+        "invocations, next scripted action runs iff nothing was signalled or always_continue, ASYNC_PAUSED exactly while a hook invocation is pending or on kill_by_pg_scan's sampling tick. "
         "non-trivial = >=1 attempt with a successful kill and >=1 attempt or invocation without; distinct by scenario hash")
 ASSUMPTIONS = ["xattrs emulated by the harness keyed by inode; kill(2) interposed with scripted results",
                "kernelkill attempts are judged on uuid/ooms only (the kernel, not oomd, sends those signals)"]
@@ -60,7 +60,14 @@ def cases(seed, tier):
         if sl:
             extra["silence-logs"] = sl
         ticks = [{"step_ns": 10**9} for _ in range(rng.randint(3, 5))]
-        scn = KG.base_scn(cid, cgs, KG.kill_config(plugin, args, extra), ticks=ticks, kill=kill, linger=linger)
+        hooks, hspec = None, {}
+        if rng.random() < 0.25:
+            # a prekill hook that needs a few polls: the action must answer ASYNC_PAUSED exactly while it is pending
+            hooks = [{"name": "v_hook", "args": {"id": "h0", "cgroup": rng.choice(["/", "wl/*", "wl"])}}]
+            hspec = {"h0": [{"polls": rng.randint(0, 3)} for _ in range(4)]}
+            extra["prekill_hook_timeout"] = str(rng.choice([1, 3, 10]))
+            ticks = [{"step_ns": 10**9} for _ in range(rng.randint(5, 8))]
+        scn = KG.base_scn(cid, cgs, KG.kill_config(plugin, args, extra, hooks=hooks), ticks=ticks, kill=kill, linger=linger, hooks=hspec)
         if rng.random() < 0.15:
             scn["xattr_fail"] = rng.choice(["EPERM", "ENOTSUP"])
         yield core.Case(cid, [scn], {"plugin": plugin, "args": args})
@@ -88,8 +95,24 @@ def judge(case, results):
     uuids = set()
     expect_kills = 0
     good = bad_ = 0
+    outstanding = 0
     for inv in invs:
         killlines = [m for m in (KMSG.match(l) for l in inv.kmsg) if m]
+        # ---- ASYNC_PAUSED exactly while a prekill hook is pending (or on kill_by_pg_scan's first sampling tick)
+        for h in inv.hooks:
+            if h["m"] == "fire":
+                outstanding += 1
+            elif h["m"] == "destroy":
+                outstanding -= 1
+        ran_now = inv.pre is not None or (inv.tick > 0 and invs[inv.tick - 1].ret == "A")
+        if ran_now and inv.ret is not None:
+            sampling = plugin == "kill_by_pg_scan" and inv.pre is not None and not inv.attempts and not inv.hooks and not killlines
+            if outstanding > 0 and inv.ret != "A":
+                v.bad("return-value", "hook-pending-not-async", "tick %d: a prekill hook invocation is still pending but the action returned %s" % (inv.tick, inv.ret))
+            if outstanding == 0 and inv.ret == "A" and not sampling:
+                v.bad("return-value", "async-without-reason", "tick %d: action returned ASYNC_PAUSED with no hook pending (attempts %s)" % (inv.tick, [a.victim for a in inv.attempts]))
+            if inv.ret == "A":
+                v.count("async_returns")
         if dry:
             if inv.attempts:
                 v.bad("dry-attempt", "", "dry run marked a victim")
@@ -101,7 +124,7 @@ def judge(case, results):
                     v.bad("return-value", "dry", "tick %d: dry run selected %s but the next action ran" % (inv.tick, killlines[0].group(1)))
             elif inv.pre is not None:
                 bad_ += 1
-                if inv.post is None and not (plugin == "kill_by_pg_scan" and inv.ret == "A"):
+                if inv.post is None and not (plugin == "kill_by_pg_scan" and inv.ret == "A") and outstanding == 0:
                     v.bad("return-value", "dry-nothing", "tick %d: nothing selected but the next action did not run" % inv.tick)
             continue
         nsignal = 0
@@ -158,7 +181,7 @@ def judge(case, results):
             ran = inv.pre is not None or (inv.tick > 0 and invs[inv.tick - 1].ret == "A")
             if ran:
                 bad_ += 1
-                if inv.post is None and not (plugin == "kill_by_pg_scan" and inv.tick == 0):
+                if inv.post is None and not (plugin == "kill_by_pg_scan" and inv.tick == 0) and outstanding == 0:
                     v.bad("return-value", "nothing-signalled", "tick %d: nothing signalled but the next action did not run (attempts %s)" % (
                         inv.tick, [a.victim for a in inv.attempts]))
     got = res.end.get("stats", {}).get("oomd.kills")
